@@ -1,0 +1,98 @@
+//go:build verif
+
+package s2
+
+// Export hooks for property C02 (orientation and distance predicates).
+// Compiled only with the build tag "verif"; thin wrappers, no behaviour.
+
+import (
+	"math"
+	"math/big"
+
+	"github.com/golang/geo/r3"
+	"github.com/golang/geo/s1"
+)
+
+// VerifTriageSign exposes triageSign.
+func VerifTriageSign(a, b, c Point) Direction { return triageSign(a, b, c) }
+
+// VerifStableSign exposes stableSign.
+func VerifStableSign(a, b, c Point) Direction { return stableSign(a, b, c) }
+
+// VerifExactSign exposes exactSign.
+func VerifExactSign(a, b, c Point, perturb bool) Direction { return exactSign(a, b, c, perturb) }
+
+// VerifExpensiveSign exposes expensiveSign.
+func VerifExpensiveSign(a, b, c Point) Direction { return expensiveSign(a, b, c) }
+
+// VerifSymbolicallyPerturbedSign exposes symbolicallyPerturbedSign on float inputs
+// (the caller must pass a < b < c with a zero determinant, as the function requires).
+func VerifSymbolicallyPerturbedSign(a, b, c Point) Direction {
+	xa := r3.PreciseVectorFromVector(a.Vector)
+	xb := r3.PreciseVectorFromVector(b.Vector)
+	xc := r3.PreciseVectorFromVector(c.Vector)
+	return symbolicallyPerturbedSign(xa, xb, xc, xb.Cross(xc))
+}
+
+// VerifTriageCompareCosDistances exposes triageCompareCosDistances.
+func VerifTriageCompareCosDistances(x, a, b Point) int { return triageCompareCosDistances(x, a, b) }
+
+// VerifTriageCompareSin2Distances exposes triageCompareSin2Distances.
+func VerifTriageCompareSin2Distances(x, a, b Point) int {
+	return triageCompareSin2Distances(x, a, b)
+}
+
+// VerifExactCompareDistances exposes exactCompareDistances.
+func VerifExactCompareDistances(x, a, b Point) int {
+	return exactCompareDistances(r3.PreciseVectorFromVector(x.Vector), r3.PreciseVectorFromVector(a.Vector), r3.PreciseVectorFromVector(b.Vector))
+}
+
+// VerifSymbolicCompareDistances exposes symbolicCompareDistances.
+func VerifSymbolicCompareDistances(x, a, b Point) int { return symbolicCompareDistances(x, a, b) }
+
+// VerifTriageCompareCosDistance exposes triageCompareCosDistance.
+func VerifTriageCompareCosDistance(x, y Point, r2 float64) int {
+	return triageCompareCosDistance(x, y, r2)
+}
+
+// VerifTriageCompareSin2Distance exposes triageCompareSin2Distance.
+func VerifTriageCompareSin2Distance(x, y Point, r2 float64) int {
+	return triageCompareSin2Distance(x, y, r2)
+}
+
+// VerifExactCompareDistance exposes exactCompareDistance.
+func VerifExactCompareDistance(x, y Point, r2 float64) int {
+	return exactCompareDistance(r3.PreciseVectorFromVector(x.Vector), r3.PreciseVectorFromVector(y.Vector), big.NewFloat(r2).SetPrec(big.MaxPrec))
+}
+
+// VerifCa45Degrees exposes ca45Degrees.
+func VerifCa45Degrees() s1.ChordAngle { return ca45Degrees }
+
+// VerifTriageSignDotProd exposes triageSignDotProd.
+func VerifTriageSignDotProd(a, b Point) int { return triageSignDotProd(a, b) }
+
+// VerifCosDistance exposes cosDistance.
+func VerifCosDistance(x, y Point) (float64, float64) { return cosDistance(x, y) }
+
+// VerifSin2Distance exposes sin2Distance.
+func VerifSin2Distance(x, y Point) (float64, float64) { return sin2Distance(x, y) }
+
+// VerifC02Constants returns the float64 values of the constants used by the predicates, in the
+// order of the Lean list S2.Pred.allConstants.  Each expression is written as in predicates.go.
+func VerifC02Constants() []float64 {
+	var one float64 = 1
+	return []float64{
+		maxDeterminantError,
+		detErrorMultiplier,
+		9.5 * dblError * one,
+		1.5 * dblError,
+		(21 + 4*sqrt3) * dblError * one,
+		32 * sqrt3 * dblError * dblError * one,
+		768 * dblError * dblError * dblError * dblError,
+		2.0 * dblError * one,
+		3.0 * dblError * one,
+		3.046875 * dblEpsilon,
+		1 / math.Sqrt2,
+		float64(ca45Degrees),
+	}
+}
